@@ -41,7 +41,10 @@ def _drive(acc, n):
     out = os.path.join(core.BUILD, "C16_drive.report.json")
     scope = os.path.join(core.BUILD, "C16_scope.ndjson")
     core.run_vh(["drive-repl", "--n", str(n), "--trace", trace, "--cases", cases, "--out", out, "--scope-trace", scope], timeout=6000)
-    acc.violations += core.scope_validate(acc, scope, "C16", closed_only_unbound=True)
+    try:
+        acc.violations += core.scope_validate(acc, scope, "C16", closed_only_unbound=True)
+    except core.ToolError as e:
+        acc.deferred_tool_error = e
     rep = core.load_json(out)
     res = core.trace_validate(acc, "Trace_Repl", "Trace_Repl.cfg", trace, "Trace_Repl", timeout=3000)
     cs = [json.loads(l) for l in open(cases)]
